@@ -44,6 +44,7 @@ func H_C18_valid() {
 	n := vChoose("len", maxN+1)
 	s := vString("tag", n)
 	got := isValidTag(s)
+	vObserve("accepted", got)
 	want := vSpecTag(s)
 	vAssert(got == want, "accepted-iff-in-documented-language")
 	vReach("end")
